@@ -287,7 +287,11 @@ impl Engine {
         crate::verif::point("engine.labels");
         let vocoder = Vocoder::new(
             self.voices.stream_metadata(0).vector_length,
-            self.voices.stream_metadata(2).vector_length,
+            if self.voices.global_metadata().num_streams > 2 {
+                self.voices.stream_metadata(2).vector_length
+            } else {
+                0
+            },
             self.condition.stage,
             self.condition.use_log_gain,
             self.condition.sampling_frequency,
